@@ -6,6 +6,102 @@ BASELINE = ("cd /repo && cargo nextest run --workspace --no-fail-fast --tool-con
             "--profile pb --test-threads 8 --offline")
 
 CLAIMED = {
+    'C04': dict(
+        technique='Lean 4 proof: inductive invariant over all interleavings of a pc-machine model of the pipeline (one step per '
+                  'sync-facade operation) + trace replay of real executions under a deterministic scheduler on the model and '
+                  'on executable property oracles',
+        text='Single-producer pipelines (every ring size, stage/handler topology, batch list, spin and blocking wait, every '
+             'schedule): theorems c04_log_is_prefix (each handler has been handed exactly 1..m, once each, in order, m <= cursor), '
+             'c04_handle_only_published, c04_delivered_after_drain, c04_single_partial (after shutdown every written sequence '
+             'except 0 was delivered), and the negation of the full statement for sequence 0 (known finding F5, '
+             'c04_single_first_event_never_delivered). Multi producer: no theorem yet; decided per run by the oracle on the '
+             'implementation events (known finding F8: stranded tail). Tie: every real trace (facade op, handler call, slot access) '
+             'is replayed step by step on the Lean model (MISMATCH) and judged by the delivery oracle (SPECFAIL). Partial: payload '
+             'integrity is judged by the oracle only, not part of the model state.',
+        note='Trusted: Lean kernel; interleaving semantics at facade-operation granularity; the sync facade + deterministic '
+             'scheduler (harness/src/sched.rs) standing in for the OS scheduler on an x86 host; ThreadedExecutor replaced by the '
+             'harness executor (same transmute, managed threads); Gen/Orderings + Gen/BitMap translators; multi-producer cases have '
+             'no model replay yet.',
+        ref='DESIGN.md §7 C04, §5.3'),
+    'C13': dict(
+        technique='Lean 4 proof: consequences of the pipeline invariant for every schedule + trace replay under the deterministic scheduler',
+        text='Single-producer pipelines, every configuration and schedule: c13_stage_order (a stage-(k+1) handler about to handle i '
+             'finds i in the log of every stage-k handler, whose published cursor is >= i), c13_chain, c13_no_stage_lapped (gating on '
+             'the last stage only bounds every stage: i < w < i + n). Observation of earlier-stage modifications is judged on the '
+             'implementation events (payload oracle) and is the happens-before statement of C05. Partial: multi producer judged by '
+             'the oracle only.',
+        note='as C04',
+        ref='DESIGN.md §7 C13'),
+    'C14': dict(
+        technique='Lean 4 proof: producer invariant (claims tile, cursor = published prefix) for every schedule + trace replay',
+        text='Single-producer sequencer, every configuration and schedule: c14_claims_tile (ranges returned by next() partition '
+             '[0, next_write) into consecutive ranges of the requested lengths), c14_cursor_monotone, c14_cursor_is_published_prefix, '
+             'c14_cursor_eq_highest_claimed. Multi-producer sequencer: decided per run by the oracle on implementation events; '
+             'known finding F7 (cursor stays below the highest claimed sequence after out-of-order publishes). Partial: no '
+             'multi-producer theorem yet.',
+        note='as C04',
+        ref='DESIGN.md §7 C14'),
+    'C11': dict(
+        technique='Lean 4 proof (induction over evaluation histories and structural induction over nesting trees) about an '
+                  'executable model of activation cells, evaluation logs, is_active and the aggregates + differential '
+                  'correspondence run over persistent models with clones',
+        text='Theorems single_active_iff_last_ok_true / single_after_evaluation / errored_evaluation_changes_nothing (for every '
+             'history of verify_single_cause / verify_all_causes / collection and graph reasoning calls with arbitrary data: a '
+             'singleton is active iff the latest non-erring evaluation of its cell returned true; inactive initially), '
+             'wrapper_active_iff_exists_member + active_eq_spec (every causaloid, any nesting depth), '
+             'number_active_eq_recount / percent_active_eq_recount (exact rational) / all_active_iff_recount, frame / frame_cell / '
+             'frame_aggregate / unevaluated_unchanged (reasoning changes only singletons it evaluated, all of which belong to the '
+             'structure it was called on), clones_share_activation.',
+        note='Trusted: Lean kernel, Model/Causaloid.lean (cells = Arc<RwLock<bool>>, validated by comparing is_active of every '
+             'handle after every call and every aggregate), f64 percentages re-computed with Lean Float in the driver only, '
+             'the harness/driver pair.',
+        ref='DESIGN.md §7 C11'),
+    'C02': dict(
+        technique='Lean 4 proof (mutual structural induction over the nesting tree, reusing the DFS stack-machine lemmas at every '
+                  'graph level) about an executable model of Causaloid / collection / graph reasoning + differential '
+                  'correspondence run on generated nesting trees',
+        text='Theorems wrapper_eq_direct_{alone,in_collection,in_graph}: a wrapper gives, alone, as item i of a collection and as '
+             'non-root node of a graph, exactly the verdict of reasoning directly over the wrapped structure with the data routed '
+             'as the code routes it; nested_true_iff / nested_false / nested_err_never_true / nested_{false,err}_cause / '
+             'verdict_is_conjunction: for every nesting tree of acyclic graphs (depth, fan-out unbounded), every data vector and '
+             'index, an answered verdict is the conjunction of the verdicts of all contained singletons (Spec.Nest.contained); '
+             'nested_terminates + total forms; contextual_uses_own_ctx / nested_uses_own_ctxs. Quirks carried as hypotheses and '
+             'covered as panic: wrapper in root position, wrapper node whose own id has no observation slot.',
+        note='Trusted: Lean kernel, the model Model/Causaloid.lean mirroring causable.rs / protocols/causable/mod.rs / '
+             'graph_reasoning.rs (validated by the correspondence run: every verdict and every is_active flag after every call), '
+             'petgraph neighbour order = ascending index, the harness/driver pair. none = panic or no answer within fuel.',
+        ref='DESIGN.md §7 C02'),
+    'C17': dict(
+        technique='Lean 4 proof (representation invariant by induction over the store sequence; simulation between the two '
+                  'builds) over address maps, array nesting and Grid/ArrayGrid wrappers regenerated from grid_type/*.rs by a '
+                  'fail-closed translator + differential correspondence run on both builds and all 256 extent tuples',
+        text='Theorems getAddr_eq_setAddr, addr_injective, inb_of_small (from the generated definitions), '
+             'c17_{safe,unsafe}_{default_before_store, get_set_same, get_set_other, store_load, meets_spec} and '
+             'c17_safe_unsafe_agree: for every dimension kind, all extents W,H,D,C (unbounded), every sequence of stores at '
+             'points whose coordinates are below the smallest extent, no store panics and a read returns the value most '
+             'recently stored at that very point, else the default; arbitrary op sequences (any points, panics included) are '
+             'accepted by the association-list oracle; the RefCell grid and the raw-pointer grid answer identically on every '
+             'op sequence.',
+        note='Trusted: Lean kernel (propext, Classical.choice, Quot.sound), rs2lean_grid.py (~450 lines), the fixed prelude of '
+             'Gen/GridAddr.lean = semantics of nested Rust array indexing (panic iff an index is out of range of its level; a '
+             'store changes exactly the addressed cell), RefCell borrow and raw-pointer write through &self as plain accesses in '
+             'sequential code (UB of the latter is not detectable), the harness/driver pair.',
+        ref='DESIGN.md §7 C17'),
+    'C16': dict(
+        technique='Lean 4 proof (unfold + grind/omega over straight-line definitions) about the eight update/adjust bodies '
+                  'regenerated from node_types_adjustable/*/adjustable.rs by a fail-closed translator + differential '
+                  'correspondence run on the real nodes and real ArrayGrids',
+        text='Theorems <kind>_<op>_{ok_sets_all, err_changes_nothing, fails_if_inadmissible, succeeds_if_strictly_positive, '
+             'reads_expected_cells} for data/time/space/space-time x update/adjust, plus c16_meets_spec / c16_all_or_nothing: '
+             'for every current node value and every grid content (unbounded integers) the generated function either succeeds '
+             'with exactly the new values / old+delta in every coordinate or fails leaving the node as it was when the call '
+             'started (the model returns the node as it stands at every return, so a partial write is visible); it fails on '
+             'zero replacement x/y/z/data, negative replacement time or a negative adjusted value, succeeds when all '
+             'replacements / all deltas and results are strictly positive, and depends on the grid only through the expected cells.',
+        note='Trusted: Lean kernel (propext, Classical.choice, Quot.sound), rs2lean_adjustable.py (~300 lines, statement grammar '
+             'in its docstring), values of T as mathematical integers (overflow of a concrete T is outside the property), '
+             'ArrayGrid::get as a function of the point (C17 covers the grid), the harness/driver pair.',
+        ref='DESIGN.md §7 C16'),
     'C07': dict(
         technique='Lean 4 proof (representation invariant preserved by every push, lifted over all histories by induction; '
                   'every accessor characterised under the invariant) over a hand-transcribed model of the four storages + '
